@@ -15,6 +15,7 @@ REGISTRY = {
     "C03": "passfail",
     "C04": "ap",
     "C10": "filtering",
+    "C14": "labels",
     "C20": "enums",
     "C07": "frames",
     "C05": "clear",
